@@ -679,8 +679,10 @@ static ak::ContentPtr op_content(const std::string& op, const JV& st, Session& S
   }
 #define OPTCLASSES(M) M(ak::IndexedOptionArray32) M(ak::IndexedOptionArray64) M(ak::ByteMaskedArray) M(ak::BitMaskedArray) M(ak::UnmaskedArray)
   if (op == "project") {
-    if (st.HasMember("mask")) {
-      ak::Index8 m = mkindex<int8_t>(st["mask"]);
+    if (st.HasMember("mask") || st.HasMember("mask_alt")) {
+      // mask_alt: a mask of the array's own length that marks every second position as missing (1 = missing)
+      ak::Index8 m = st.HasMember("mask") ? mkindex<int8_t>(st["mask"]) : ak::Index8(src->length());
+      if (!st.HasMember("mask")) for (int64_t i = 0; i < src->length(); i++) m.setitem_at_nowrap(i, (int8_t)((i + geti(st, "mask_alt", 1)) % 2));
 #define CVM(T) if (TRYCAST(T, a)) return a->project(m);
       OPTCLASSES(CVM) CVM(ak::IndexedArray32) CVM(ak::IndexedArrayU32) CVM(ak::IndexedArray64)
 #undef CVM
